@@ -152,6 +152,29 @@ def check_gate_numeric(name, params):
     return phase_equal(U, V), src, ""
 
 
+def check_gate_broadcast(name, params):
+    """one statement applying the gate to two groups of operands must equal the two single applications
+    (both through real pyqasm): (ok, source, detail)"""
+    import pyqasm
+    k = gates_spec.SPECS[name][1] if name in gates_spec.SPECS else 2
+    if k > 3:
+        return True, "", "skipped"
+    ps = "(" + ", ".join(repr(float(p)) for p in params) + ")" if params else ""
+    head = 'OPENQASM 3.0;\ninclude "stdgates.inc";\nqubit[%d] q;\n' % (2 * k)
+    one = head + "%s%s %s;\n" % (name, ps, ", ".join("q[%d]" % i for i in range(2 * k)))
+    two = head + "%s%s %s;\n%s%s %s;\n" % (name, ps, ", ".join("q[%d]" % i for i in range(k)),
+                                           name, ps, ", ".join("q[%d]" % i for i in range(k, 2 * k)))
+    try:
+        m1, m2 = pyqasm.loads(one), pyqasm.loads(two)
+        m1.unroll()
+        m2.unroll()
+        U = circuit_unitary(flat_ops_from_module(m1, {"q": 0}), 2 * k)
+        V = circuit_unitary(flat_ops_from_module(m2, {"q": 0}), 2 * k)
+    except Exception as e:
+        return False, one, "exception %s: %s" % (type(e).__name__, e)
+    return phase_equal(U, V), one, "one statement on two operand groups differs from the two single applications"
+
+
 if __name__ == "__main__":
     import random
     rnd = random.Random(1)
